@@ -3,7 +3,7 @@
 import json, os, re, sys
 V = os.path.dirname(os.path.dirname(os.path.abspath(__file__)))
 log = {}
-p = os.path.join(V, ".work", "seedreg.log")
+p = os.path.join(V, ".work", "seedreg.all.log")
 if os.path.exists(p):
     for line in open(p):
         m = re.match(r"(\S+) \((C\d\d)\): (.*)", line)
